@@ -221,6 +221,7 @@ def main(mod, argv=None):
     ap.add_argument('--no-evidence', action='store_true')
     ap.add_argument('--digests', help='write per-run digests to this file (determinism self-test)')
     ap.add_argument('--start', type=int, default=0)
+    ap.add_argument('--runs-only', action='store_true', help='skip the extra phase (C13 cross-process)')
     args = ap.parse_args(argv)
     seed = int(os.environ.get('VERIF_SEED', '0'))
     prop = mod.PROP
@@ -273,6 +274,14 @@ def main(mod, argv=None):
         for k in out.get('known', []):
             known_hits[k] = known_hits.get(k, 0) + 1
 
+    # --- 1b. property-specific extra phase (C13: fresh interpreters under other hash seeds)
+    extra = []
+    if hasattr(mod, 'extra_phase') and not args.runs_only:
+        try:
+            extra = mod.extra_phase(seed, tier, args.workers)
+        except Exception as e:
+            broken.append(('extra_phase', ''.join(traceback.format_exception(type(e), e, e.__traceback__))[-3000:]))
+
     # --- 2. seeded search
     chunk = getattr(mod, 'CHUNK', 25)
     idxs = list(range(args.start, args.start + n_runs))
@@ -320,6 +329,7 @@ def main(mod, argv=None):
             for k in sorted(results):
                 summaries.extend(results[k])
 
+    summaries = extra + summaries
     if args.digests:
         with open(args.digests, 'w') as f:
             for s in summaries:
